@@ -134,7 +134,7 @@ class Interp:
         P = np.array([a.coords for a in regs])
         D = np.linalg.norm(P[:, None] - P[None], axis=-1)
         for i, a in enumerate(regs):
-            got = self.cells.get_near_cells(a)
+            got = list(self.cells.get_near_cells(a))
             ids = [g.uid for g in got]
             if len(set(ids)) != len(ids):
                 self.res.bad("C14:cells:duplicate", "an atom is returned twice")
@@ -264,8 +264,32 @@ def install_pipeline_wrapper():
         self._vf_bio = biomolecule
         return orig_assign(self, biomolecule)
 
+    class OneShot:
+        """Stands in for a one-shot iterable returned by the code under test (same semantics: a
+        second walk yields nothing) and records that a caller walked it again."""
+
+        def __init__(self, items, stats, where):
+            self.items, self.stats, self.where, self.walks = items, stats, where, 0
+
+        def __iter__(self):
+            self.walks += 1
+            if self.walks > 1:
+                if self.items:
+                    self.stats.setdefault("exhausted", []).append(
+                        f"a caller walks the neighbours of {self.where} a second time and gets nothing "
+                        f"({len(self.items)} atoms were in range)")
+                return iter(())
+            return iter(self.items)
+
     def query(self, atom):
         out = orig_query(self, atom)
+        if not isinstance(out, list):
+            items = list(out)
+            audited = query_audit(self, atom, items)
+            return OneShot(audited, STATS, f"{atom.name} of {atom.residue}")
+        return query_audit(self, atom, out)
+
+    def query_audit(self, atom, out):
         st_ = STATS
         st_["queries"] = st_.get("queries", 0) + 1
         if st_["queries"] % st_.get("every", 5):
@@ -347,6 +371,8 @@ def check_pipeline(case):
     for key, msgs in STATS.items():
         if key == "ghost":
             res.bad("C14:pipeline:ghost-returned", msgs[0])
+        elif key == "exhausted":
+            res.bad("C14:pipeline:result-exhausted", msgs[0])
         elif key == "missing:unregistered":
             # an atom under construction (being rotated into place) is deliberately not registered yet
             res.label("unregistered-atom-near-query")
